@@ -529,7 +529,11 @@ fn recover(
 
     // The pages rewritten above must be durable before the WAL that can redo them is discarded:
     // otherwise a power loss after the (fsynced) truncation leaves neither.
+    #[cfg(nomt_verif)]
+    crate::verif::pre(crate::verif::Kind::Fsync, ht_fd.as_raw_fd(), 0, 0, None)?;
     ht_fd.sync_all()?;
+    #[cfg(nomt_verif)]
+    crate::verif::post(crate::verif::Kind::Fsync, ht_fd.as_raw_fd());
 
     // Finally, we collapse the WAL file and fsync.
     writeout::truncate_wal(wal_fd, true)?;
